@@ -8,7 +8,36 @@
 //! and statement by statement (`trans.rs`); there are no per-function special cases.  Anything
 //! outside the supported subset stops the run with
 //!     TRANSLATE-ERROR <file>:<line>: <what>
-//! and a non-zero exit status.  The output is a deterministic function of the source text.
+//! and a non-zero exit status (the output file is then overwritten with a file that does not compile,
+//! so a stale translation can never be checked).  The output is a deterministic function of the source text.
+//!
+//! Supported subset (everything else is a TRANSLATE-ERROR):
+//!   items      `const` (pure initialiser), `struct` with named fields, `enum` (unit / tuple / struct variants,
+//!              explicit discriminants), free `fn`, inherent methods (`&self`, `self`, `&mut self`),
+//!              `impl From<A> for B { fn from }` (used by `?`); no generics (lifetimes are ignored)
+//!   types      `u8 u16 u32 u64 usize` (Nat + width), `bool`, `()`, tuples, `[T; N]` / `Vec<T>` / `&[T]` / `Bytes`
+//!              (List), `Option<T>`, `Result<T, E>` (return type only), selected structs/enums, `&T`/`&mut T`
+//!              transparent; table-mapped: `io::Error`, `Range<u64>`, `octets::{OctetsMut, Octets, BufferTooShortError}`
+//!   statements `let` (ident / `_` / tuple pattern, optional type), assignment and compound assignment to
+//!              places (`x`, `x.f`, `x[i]`, nested), `if` / `else if` / `if let`, `match`, blocks,
+//!              `for i in a..b`, `for x in list` / `&list` / `list.iter()` (ident, `_`, tuple pattern),
+//!              early `return`, `use Enum::*;`, `log::…!` (ignored), `unreachable!`/`panic!`/`todo!` (panic)
+//!   expressions literals (int with unsigned suffix, bool, byte, byte string), paths (locals, selected consts,
+//!              enum variants, `uN::MAX`), `+ - * / %` (checked), `<< >>` (checked amount), `& | ^ !`,
+//!              comparisons, `&& ||` (short-circuit kept when the right side can panic), `as` casts to unsigned
+//!              (from unsigned, bool, field-less enum), field access, indexing, `[a..b]` slices, tuples,
+//!              struct / enum-variant literals, `[x; n]`, `[a, b]`, `vec![x; n]`, `vec![..]`, `matches!`,
+//!              `Some(..)`/`None`, `Ok(..)`/`Err(..)` in return position, `?` on calls of translated /
+//!              semantic-model `Result` fns, calls of selected fns, `a..b` as `Range<u64>` value, `std::mem::take`
+//!   methods    ints: `checked_/wrapping_/saturating_{add,sub,mul}`, `to_le_bytes`, `to_be_bytes`, `min`, `max`;
+//!              `uN::from_le_bytes/from_be_bytes/from`; lists: `len is_empty to_vec clone into iter rev next`,
+//!              statements `resize push extend_from_slice clear truncate reverse copy_from_slice`;
+//!              `Option`: `is_some is_none unwrap`; `Vec::new`, `Vec::with_capacity`, `Bytes::from`;
+//!              octets model: `put_u8 put_u16 put_u32 put_u64 put_varint put_bytes cap`,
+//!              `get_u8 get_u16 get_u32 get_u64 get_varint get_bytes get_bytes_with_varint_length len is_empty to_vec`
+//!   not supported: `while`/`loop`/`break`/`continue`, closures, generics, traits, signed integers, floats,
+//!              references stored in data, `&mut` parameters other than `self` and the octets cursors,
+//!              `Err` returned from a `&mut self` method after `self` was mutated.
 
 mod doc;
 mod globals;
